@@ -26,6 +26,10 @@ RULE = ('(a) exhaustive: every list length n in 1..N (N=300 quick, 640 thorough)
         'query compared with a from-scratch computation; non-trivial = a truncate to a length '
         'that is not segment-aligned followed by an extension and a query. Thorough also '
         'enumerates all init/extend/truncate sequences up to length 3 over lengths <= 24. '
+        '(d) 2..4 branch_and_root calls started together over a static source whose reads '
+        'complete in a generated order (in the server every read is a worker-thread job, so '
+        'requests interleave at each read); each result compared with the from-scratch '
+        'computation; non-trivial = two reads in flight at once. '
         'distinct = distinct (n,index) pairs / distinct op sequences.')
 ASSUMPTIONS = ['hashlib.sha256 is correct', 'the MerkleCache source only changes at or above a '
                'length the cache has been truncated to (as DB.backup_fs guarantees)']
@@ -371,7 +375,107 @@ def cache_body(ctx):
 
 
 def run_cache(ctx):
-    hyp_run(ctx, 'c12.cache', CACHE_CASE, cache_body(ctx), ctx.pick(150, 20000))
+    hyp_run(ctx, 'c12.cache', CACHE_CASE, cache_body(ctx), ctx.pick(150, 20000), frac=0.5)
+    hyp_run(ctx, 'c12.concurrent', CONC_CASE, conc_body(ctx), ctx.pick(300, 20000))
+
+
+# ---- several requests in flight ------------------------------------------------------------------
+#
+# The server's callers are concurrent: every source read is a worker-thread job, so another
+# request runs whenever one waits for its read.  Here 2..4 branch_and_root calls are started
+# together over a static source whose reads complete in a generated order.
+
+class SlowSource:
+    def __init__(self, items):
+        self.items = items
+        self.pending = []       # (future, start, count)
+
+    async def func(self, start, count):
+        fut = asyncio.get_event_loop().create_future()
+        self.pending.append((fut, start, count))
+        await fut
+        return self.items[start:start + count]
+
+
+async def _run_conc_case(case):
+    init, reqs, order = case
+    merkle = Merkle()
+    n = 1 + max([init % 64] + [a % 64 for a, _ in reqs]) + 1
+    items = [leaf(i, 0) for i in range(n)]
+    src = SlowSource(items)
+    cache = MerkleCache(merkle, src.func)
+    t0 = asyncio.ensure_future(cache.initialize(1 + init % (n - 1)))
+    while not t0.done():
+        await asyncio.sleep(0)
+        for fut, _, _ in src.pending:
+            if not fut.done():
+                fut.set_result(None)
+        src.pending = [p for p in src.pending if not p[0].done()]
+    queries = []
+    for a, b in reqs:
+        length = 1 + a % n
+        queries.append((length, b % length))
+    tasks = [asyncio.ensure_future(cache.branch_and_root(length, index))
+             for length, index in queries]
+    info = {'overlap': False, 'extend_reads_in_flight_max': 0}
+    k = 0
+    for _ in range(400):
+        for _ in range(4):
+            await asyncio.sleep(0)
+        if all(t.done() for t in tasks):
+            break
+        live = [p for p in src.pending if not p[0].done()]
+        src.pending = live
+        if not live:
+            continue
+        info['extend_reads_in_flight_max'] = max(info['extend_reads_in_flight_max'], len(live))
+        if len(live) > 1:
+            info['overlap'] = True
+        fut, _, _ = live[order[k % len(order)] % len(live)]
+        k += 1
+        fut.set_result(None)
+    for (length, index), t in zip(queries, tasks):
+        if not t.done():
+            t.cancel()
+            return f'branch_and_root({length},{index}) did not complete', info
+        if t.exception() is not None:
+            return (f'concurrent branch_and_root({length},{index}) raised {t.exception()!r} '
+                    f'(requests in flight together: {queries})'), info
+        branch, root = t.result()
+        levels = ref_levels(items[:length])
+        classic, _ = ref_branch(levels, index)
+        if root != levels[-1][0] or branch != classic:
+            return (f'with requests {queries} in flight together (cache initialised to '
+                    f'{1 + init % (n - 1)}), branch_and_root({length},{index}) returned a '
+                    f'{"root" if root != levels[-1][0] else "branch"} that differs from the '
+                    f'from-scratch computation'), info
+    return None, info
+
+
+def run_conc_case(case):
+    loop = asyncio.new_event_loop()
+    try:
+        return loop.run_until_complete(_run_conc_case(case))
+    finally:
+        loop.close()
+
+
+CONC_CASE = st.tuples(
+    st.integers(0, 63),
+    st.lists(st.tuples(st.integers(0, 63), st.integers(0, 63)).map(list), min_size=2, max_size=4),
+    st.lists(st.integers(0, 3), min_size=1, max_size=12)).map(list)
+
+
+def conc_body(ctx):
+    def body(case):
+        msg, info = run_conc_case(case)
+        ctx.record(case=case, nontrivial=info['overlap'],
+                   classes=['concurrent.case'] + (['concurrent.reads_overlap'] if info['overlap']
+                                                  else []),
+                   sample={'check': 'c12.concurrent', 'case': case})
+        if msg:
+            raise Violation(msg, 'concurrent')
+    return body
 
 
 def run_cache_enumerated(ctx):
@@ -466,6 +570,9 @@ def replay(ctx, check, case):
     if check == 'c12.cache':
         msg, _ = run_cache_case(case)
         return (msg, 'cache') if msg else None
+    if check == 'c12.concurrent':
+        msg, _ = run_conc_case(case)
+        return (msg, 'concurrent') if msg else None
     if check == 'c12.cache_enum':
         loop = asyncio.new_event_loop()
         try:
